@@ -6,10 +6,13 @@
    "R": rows / runs / italic-underline-boxing sequences (open subtitling), justification, vertical position
    "X": teletext display standards 1 and 2: boxed rows, colour and double-height codes
    "M": GSI metadata subsets, user-data blocks interleaved *)
-EXTENDS StlCodec
+EXTENDS StlCodec, IOUtils
 CONSTANT FAM
 VARIABLES g, d, phase
 vars == <<g, d, phase>>
+
+\* GEN_WIDE=1 (thorough tier): the families range over the whole space of rendering choices / wider truth sets
+Wide == "GEN_WIDE" \in DOMAIN IOEnv /\ IOEnv.GEN_WIDE = "1"
 
 \* MNC / MNR (characters per row / rows) are mandatory GSI fields
 NoMeta == [f \in {"mnc", "mnr"} |-> IF f = "mnc" THEN 40 ELSE 23]
@@ -31,7 +34,8 @@ PairsK == {KPair(<<X, c, Y>>, <<X, Latin(c), Y>>) : c \in PrintableCodes \ {32}}
                   dc \in DiacriticCodes, b \in Letters}
 
 \* T: timecodes
-HMS == {<<0, 0, 0>>, <<0, 59, 59>>, <<1, 1, 58>>, <<10, 0, 0>>, <<23, 59, 58>>}
+HMS == IF Wide THEN {<<h, m, s>> : h \in {0, 1, 9, 10, 23}, m \in {0, 1, 59}, s \in {0, 1, 30, 58}}
+       ELSE {<<0, 0, 0>>, <<0, 59, 59>>, <<1, 1, 58>>, <<10, 0, 0>>, <<23, 59, 58>>}
 TruthsT == {BaseG(fps, 0, tcp, <<Cue(<<hms[1], hms[2], hms[3], f>>, <<hms[1], hms[2], hms[3] + 1, (f * 7) % fps>>, 20, 2, <<<<PlainRun(<<X>>)>>>>)>>) :
               fps \in {25, 30}, tcp \in {TC0, <<0, 0, 0, 0>>}, hms \in HMS, f \in 0..29} 
 TruthsTOK == {t \in TruthsT : t.cues[1].tci[4] < t.fps}
@@ -47,14 +51,14 @@ Runs2 == {rr \in {<<Run(<<X, 32, Y>>, it[1], un[1], bx[1], -1, 0), Run(<<Y, X>>,
             <<rr[1].it, rr[1].un, rr[1].bx>> # <<rr[2].it, rr[2].un, rr[2].bx>>}
 Runs1 == {<<Run(<<X, 32, Y>>, it, un, 0, -1, 0)>> : it \in {0, 2}, un \in {0, 2}}
 TruthsR == {BaseG(25, 0, TC0, <<Cue(<<0, 0, 1, 0>>, <<0, 0, 2, 0>>, vp, jc, rows)>>) :
-              vp \in {0, 12, 99}, jc \in 0..3,
-              rows \in {<<r>> : r \in Runs1 \cup Runs2} \cup {<<r1, r2>> : r1 \in Runs1, r2 \in Runs1}}
+              vp \in (IF Wide THEN {0, 1, 12, 23, 99} ELSE {0, 12, 99}), jc \in 0..3,
+              rows \in {<<r>> : r \in Runs1 \cup Runs2} \cup {<<r1, r2>> : r1 \in (IF Wide THEN Runs1 \cup Runs2 ELSE Runs1), r2 \in Runs1}}
 
 \* X: teletext display standards
 TRow(a, col, dh) == <<Run(<<X, a, Y>>, 0, 0, 0, col, dh)>>
 TruthsX == {BaseG(25, dsc, TC0, <<Cue(<<0, 0, 1, 0>>, <<0, 0, 2, 0>>, vp, 2, rows)>>) :
-              dsc \in {1, 2}, vp \in {1, 20, 23},
-              rows \in {<<TRow(65, c, h)>> : c \in {-1, 3, 7}, h \in {0, 2}} \cup {<<TRow(65, c1, 0), TRow(66, c2, 2)>> : c1 \in {-1, 6}, c2 \in {-1, 1}}}
+              dsc \in {1, 2}, vp \in (IF Wide THEN {1, 2, 12, 20, 22, 23} ELSE {1, 20, 23}),
+              rows \in {<<TRow(65, c, h)>> : c \in (IF Wide THEN -1..7 ELSE {-1, 3, 7}), h \in {0, 2}} \cup {<<TRow(65, c1, 0), TRow(66, c2, 2)>> : c1 \in {-1, 6}, c2 \in {-1, 1}}}
 
 \* M: metadata
 MetaAll == [f \in {"opt", "oet", "tpt", "tet", "tn", "tcd", "slr", "pub", "en", "ecd", "co", "lang", "mnc", "mnr", "rn"} |->
